@@ -870,9 +870,20 @@ var buildCheck = &core.Check{Name: "c14/build", Quick: 1400, Thorough: 60000, Fn
 	c.Note("requests", descr)
 	var raws []wallet.RawMessage
 	var sendables []wallet.Sendable
+	readFirst := rawPath && c.Intn("readfirst", 3) == 0
+	if readFirst {
+		c.Class("message cells were read before the send")
+	}
 	for i := range msgs {
 		if rawPath {
-			raws = append(raws, wallet.RawMessage{Message: wtest.MustCell(msgs[i].raw), Mode: msgs[i].mode})
+			mc := wtest.MustCell(msgs[i].raw)
+			if readFirst {
+				// the caller has looked into the message cell before handing it over (the read position of a
+				// cell is not part of its value: hash, AddRef and serialisation ignore it)
+				mc.ReadUint(int(r.intn("readfirst.bits", 65)))
+				mc.NextRef()
+			}
+			raws = append(raws, wallet.RawMessage{Message: mc, Mode: msgs[i].mode})
 		} else {
 			sendables = append(sendables, msgs[i].sendable())
 		}
